@@ -868,6 +868,8 @@ func createAssociationFromConfigWithTsn(cfg *Config, tsn uint32) *Association {
 
 	assoc.rack.rackReoWndFloor = cfg.rack.rackReoWndFloor // optional floor; usually 0
 	assoc.rackKeepInflatedRecoveries = 0
+	// the reordering high-watermark lives in this association's TSN space
+	assoc.rackHighestDeliveredOrigTSN = tsn - 1
 
 	if assoc.name == "" {
 		assoc.name = fmt.Sprintf("%p", assoc)
